@@ -305,6 +305,12 @@ def polarity(cx, c, t, axis, depth=0):
     """additive polarity of the false origin of `axis` in t: 0 absent, +1, -1, 'scaled'"""
     if depth > 60 or not isinstance(t, tuple):
         return 0
+    if t[0] == "proj" and c.fwd:
+        # a value handed back by a private helper of the module (e.g. a tuple of precomputed parameters)
+        import elems as E
+        t2 = E.look_through_calls(cx.f.fn(c.fwd), t)
+        if t2 is not None and t2 is not t:
+            t = t2
     if origin_source(t, cx.f, axis):
         return 1
     s = strip_transparent(t)
@@ -397,7 +403,11 @@ def inverse_origin_uses(cx, c, f, t, axis, inputs, out, depth=0, parent=None, si
     ok iff the occurrence is the right operand of `input - origin`"""
     if depth > 80 or not isinstance(t, tuple):
         return
-    p = polarity(cx, c, t, axis, 90) if False else None
+    if t[0] in ("proj", "ref"):
+        import elems as E
+        t2 = E.look_through_calls(f, t)
+        if t2 is not None and t2 is not t:
+            t = t2
     carries = origin_source(t, cx.f, axis)
     stored = None
     s = strip_transparent(t)
